@@ -493,8 +493,8 @@ func execChain(c cfg, ops []string, slot int) string {
 					mid = id
 				}
 			}
-			out = append(out, fmt.Sprintf("c=%s;d=%s;l=%d;m=%d", r.absEntries(r.in.chain.VerifC03CacheDump(), true),
-				r.absEntries(rows, false), r.b.blkID[lf], mid))
+			out = append(out, fmt.Sprintf("c=%s;d=%s;l=%d;m=%d;t=%d", r.absEntries(r.in.chain.VerifC03CacheDump(), true),
+				r.absEntries(rows, false), r.b.blkID[lf], mid, r.in.chain.BestSnapshot().TotalTxns))
 		default:
 			return "bad-op"
 		}
